@@ -251,6 +251,9 @@ class Session(Thread):
                     # Closed from our side: a socket that was closed locally
                     # never becomes readable again, so do not wait for EOF
                     break
+            # Left the loop because the session was closed from our side:
+            # requests still waiting for a reply will never get one
+            self._dispatch_error(TransportError('Session closed'))
         except Exception as e:
             self.logger.debug("Broke out of main loop, error=%r", e)
             self._dispatch_error(e)
